@@ -1,6 +1,6 @@
 Require Extraction.
 Require Import ExtrOcamlBasic.
 From GoPdf.Base Require Import WireAnchor.
-From GoPdf.C20 Require Import SeqScan WindowTheorems FastScan.
+From GoPdf.C20 Require Import SeqScan WindowTheorems FastScan IntObjects.
 Separate Extraction wire_anchor seq_scan scan_windows scan_ideal locate all_objs check_objects
-  index_lookup xref_lookup find_start tameb scan_windows_pre_F24 scan_trailer scan_windows_fast.
+  index_lookup xref_lookup find_start tameb scan_windows_pre_F24 scan_trailer scan_windows_fast parse_int.
